@@ -146,8 +146,8 @@ RESOLVE_LOCAL = {
 }"""},
                 {"after": "rrs.append(&mut cname_rrs);", "nth": 3, "at": "before", "proof": "let ghost cr__ = cname_rrs@; let ghost r0__ = rrs@;"},
                 {"after": "rrs.append(&mut cname_rrs);", "nth": 3, "proof": "assert(rrs@ == r0__ + cr__); assert(cr__.len() > 0 ==> rrs@.last() == cr__.last());"},
-                {"after": "rrs_from_cache.append(&mut rrs);\n                        final_cname = Some(cname_question.name);", "at": "before", "proof": "let ghost cr__ = rrs@; let ghost r0__ = rrs_from_cache@;"},
-                {"after": "rrs_from_cache.append(&mut rrs);\n                        final_cname = Some(cname_question.name);", "proof": "assert(rrs_from_cache@ == r0__ + cr__); assert(cr__.len() > 0 ==> rrs_from_cache@.last() == cr__.last());"},
+                {"after": "rrs_from_cache.append(&mut rrs);", "nth": 1, "at": "before", "proof": "let ghost cr__ = rrs@; let ghost r0__ = rrs_from_cache@;"},
+                {"after": "rrs_from_cache.append(&mut rrs);", "nth": 1, "proof": "assert(rrs_from_cache@ == r0__ + cr__); assert(cr__.len() > 0 ==> rrs_from_cache@.last() == cr__.last());"},
                 ],
     "contract": """    requires old(context).wf(),
     ensures
